@@ -19,6 +19,9 @@ def run(ctx, R, tier):
     c17.mapping(F, R)
     speed_units(F, R)
     speed_conversions(F, R)
+    # 'clock-time arithmetic keeps the fraction in [0, 1)': so does the fraction a handle reads (published at full width)
+    from .c05 import published_width
+    published_width(F, R, rule='B.C19.published', fn_filter=lambda q: q.startswith('clock::'), floor=4)
     semitones(F, R)
     # the easings are built from powers: their domain conditions are obligations (A.singular)
     from ..enginea import run_singular_only
